@@ -2,20 +2,22 @@
 
    Archive (style "./"): "./", "./d/", "./d/f" (regular, 700 bytes), "./g" (regular, 10 bytes) - the C17_demo archive.
 
-   (1) FINDING (about the modelled code, the same on the archive's instance and on its twin): a metadata update of an
-       original NON-EMPTY regular member - Chmod, Chown, Chtimes, Rename of the member, Rename of a directory above it -
-       leaves the member with recorded size 0.  The update record carries tape size 0 and the replay takes the size from
-       the PAX record STFS.UncompressedSize, which a foreign header does not have; the content is still on the tape at
-       the stored position ([e_data] of the walk reads it), but Stat reports 0 bytes.  Writes (truncate / append /
-       overwrite in place) through OpenFile are right (they write a new record with the size record).
-   (2) Hence the state hypothesis [Good] of the T02 reference theorems is FALSE for the twin of an archive with a
-       non-empty regular member ([sizes_ok]), and the call does depart from the reference ([spec_chmod] keeps the size):
-       [T20_twin_Good] / [T20_foreign_reference] assume [empty_files].  The simulation [T20_foreign_sim] and
-       [T20_foreign_continuation] need no such hypothesis: archive and twin misbehave alike. *)
+   HISTORY.  This file used to hold a FINDING about the modelled code: a metadata update of an original NON-EMPTY regular
+   member - Chmod, Chown, Chtimes, Rename of the member, Rename of a directory above it - left the member with recorded
+   size 0 (the update record carries tape size 0, the replay takes the size from the PAX record STFS.UncompressedSize,
+   which a foreign header does not have).  The code was fixed: a content-less record gets the size record from the known
+   size when it has none and the size is positive ([keep_size] in Model/Ops.v).  The same archive and the same calls now
+   show the POSITIVE facts:
+   (1) the sizes are kept (700 / 10) by Chmod, Chown, Chtimes, Rename of the member, Rename of a directory above it,
+       archive and twin alike; writes through OpenFile are right as before;
+   (2) the twin IS a [Good] state of the T02 reference theorems ([T20_twin_Good], no [empty_files] hypothesis any more), and
+       Chmod agrees with the reference ([spec_chmod] keeps the size, so does the implementation);
+   (3) what remains excluded: a member of 10^40 bytes or more ([sizes_bounded] of T20Good.v, the bound of every T02
+       theorem): the added record is rendered with 40 digits at most and decodes to another size. *)
 From Coq Require Import String List NArith ZArith Bool.
 Import ListNotations.
 From STFS Require Import Str Db Tape Index Ops Fs Diff Norm C01Sim T02Ns T02Db T02Calls T02Spec
-  T17Tree T17Forest T17Rebuild T17Test T19Rel T19Test T20Twin T20Test.
+  T17Tree T17Forest T17Rebuild T17Test T19Rel T19Test T20Twin T20Test T20Demo T20Good.
 Open Scope N_scope.
 Open Scope string_scope.
 
@@ -31,27 +33,38 @@ Example T20_counter_before :
   /\ shown sa0 = shown sr0.
 Proof. vm_compute. split; reflexivity. Qed.
 
-(* (1) after ONE metadata call the member's size is 0; archive and twin alike; each call returns OOk *)
-Example T20_counter_chmod :
+(* (1) after a metadata call the member's size is KEPT; archive and twin alike; each call returns OOk *)
+Example T20_fixed_chmod :
   snd (step cc (with_env sr0 (e0 5)) (CChmod (s "/d/f") 384)) = OOk /\
   shown (after sr0 (CChmod (s "/d/f") 384)) =
-    [(s "/", 0, None); (s "/d", 0, None); (s "/d/f", 0, Some [(1, 0, 700)]); (s "/g", 10, Some [(2, 0, 10)])]
+    [(s "/", 0, None); (s "/d", 0, None); (s "/d/f", 700, Some [(1, 0, 700)]); (s "/g", 10, Some [(2, 0, 10)])]
   /\ shown (after sa0 (CChmod (s "/d/f") 384)) = shown (after sr0 (CChmod (s "/d/f") 384)).
 Proof. vm_compute. repeat split; reflexivity. Qed.
 
-Example T20_counter_chown_chtimes :
+Example T20_fixed_chown_chtimes :
   shown (after sr0 (CChown (s "/g") 1 2)) =
-    [(s "/", 0, None); (s "/d", 0, None); (s "/d/f", 700, Some [(1, 0, 700)]); (s "/g", 0, Some [(2, 0, 10)])]
+    [(s "/", 0, None); (s "/d", 0, None); (s "/d/f", 700, Some [(1, 0, 700)]); (s "/g", 10, Some [(2, 0, 10)])]
   /\ shown (after sr0 (CChtimes (s "/g") 1 2)) = shown (after sr0 (CChown (s "/g") 1 2))
   /\ shown (after sa0 (CChown (s "/g") 1 2)) = shown (after sr0 (CChown (s "/g") 1 2)).
 Proof. vm_compute. repeat split; reflexivity. Qed.
 
-Example T20_counter_rename :
+Example T20_fixed_rename :
   shown (after sr0 (CRename (s "/g") (s "/gg"))) =
-    [(s "/", 0, None); (s "/d", 0, None); (s "/d/f", 700, Some [(1, 0, 700)]); (s "/gg", 0, Some [(2, 0, 10)])]
+    [(s "/", 0, None); (s "/d", 0, None); (s "/d/f", 700, Some [(1, 0, 700)]); (s "/gg", 10, Some [(2, 0, 10)])]
   /\ shown (after sr0 (CRename (s "/d") (s "/dd"))) =
-    [(s "/", 0, None); (s "/dd", 0, None); (s "/dd/f", 0, Some [(1, 0, 700)]); (s "/g", 10, Some [(2, 0, 10)])]
+    [(s "/", 0, None); (s "/dd", 0, None); (s "/dd/f", 700, Some [(1, 0, 700)]); (s "/g", 10, Some [(2, 0, 10)])]
   /\ shown (after sa0 (CRename (s "/d") (s "/dd"))) = shown (after sr0 (CRename (s "/d") (s "/dd"))).
+Proof. vm_compute. repeat split; reflexivity. Qed.
+
+(* the size record the call added: the row of "/d/f" has none before, and STFS.UncompressedSize = "700" afterwards; a second
+   metadata call finds the record and keeps it *)
+Definition usize_of (sy : sys) (n : str) : option str :=
+  match find (fun r => eqb_str (r_name r) n) (rows (db sy)) with Some r => pax_get K_usize (r_pax r) | None => None end.
+Example T20_fixed_record :
+  usize_of sa0 (s "/d/f") = None /\
+  usize_of (after sa0 (CChmod (s "/d/f") 384)) (s "/d/f") = Some (s "700") /\
+  usize_of (after (after sa0 (CChmod (s "/d/f") 384)) (CChown (s "/d/f") 1 2)) (s "/d/f") = Some (s "700") /\
+  shown (after (after sa0 (CChmod (s "/d/f") 384)) (CChown (s "/d/f") 1 2)) = shown sa0.
 Proof. vm_compute. repeat split; reflexivity. Qed.
 
 (* writes through OpenFile are right: append 5 bytes to the 10, overwrite the first 5 in place *)
@@ -62,26 +75,40 @@ Example T20_counter_writes_fine :
     [(s "/", 0, None); (s "/d", 0, None); (s "/d/f", 700, Some [(1, 0, 700)]); (s "/g", 10, Some [(9, 0, 5); (2, 5, 5)])].
 Proof. vm_compute. split; reflexivity. Qed.
 
-(* (2) [Good] is false for this twin, and Chmod departs from the reference: the reference keeps the 700 bytes *)
-Definition size_okb (r : row) : bool :=
-  match pax_get K_usize (r_pax r) with
-  | Some v => match undecimal v with Some n => (n =? r_size r)%N | None => false end
-  | None => (r_size r =? 0)%N
-  end.
-Lemma size_ok_b l : sizes_ok l -> forallb size_okb l = true.
+(* (2) [Good] holds for this twin (an instance of T20_twin_Good), and Chmod agrees with the reference: both keep the 700 bytes *)
+Lemma tdemo_bounded : sizes_bounded tdemo.
 Proof.
-  induction 1 as [|r l Hr _ IH]; [reflexivity|]. cbn [forallb]. rewrite IH, andb_true_r. unfold size_ok in Hr. unfold size_okb.
-  destruct (pax_get K_usize (r_pax r)) as [v|]; [rewrite Hr|rewrite Hr]; apply N.eqb_refl.
+  assert (B : forallb (fun i => (clen (i_data i) <? 10 ^ 40)%N) (items tdemo) = true) by (vm_compute; reflexivity).
+  rewrite forallb_forall in B. unfold sizes_bounded. apply Forall_forall. intros i Hi _. apply N.ltb_lt. apply B. exact Hi.
 Qed.
 
-Example T20_counter_not_Good : ~ Good true cc sa0.
-Proof.
-  intros [[_ Hsz] _]. apply size_ok_b in Hsz. vm_compute in Hsz. discriminate.
-Qed.
+Example T20_fixed_Good : Good true cc sa0.
+Proof. apply T20_twin_Good; [exact cc_plain|reflexivity|exact I|reflexivity|exact tdemo_wf|exact tdemo_bounded]. Qed.
 
-Example T20_counter_reference_departs :
+Example T20_fixed_reference_agrees :
   let s' := after sa0 (CChmod (s "/d/f") 384) in
   option_map n_size (T02Ns.lookup (abs sa0) (s "/d/f")) = Some 700 /\
   option_map n_size (T02Ns.lookup (fst (spec_chmod (abs sa0) (s "/d/f") 384)) (s "/d/f")) = Some 700 /\
-  option_map n_size (T02Ns.lookup (abs s') (s "/d/f")) = Some 0.
+  option_map n_size (T02Ns.lookup (abs s') (s "/d/f")) = Some 700 /\
+  ns_eqb (abs s') (fst (spec_chmod (abs sa0) (s "/d/f") 384)) = true.
 Proof. vm_compute. repeat split; reflexivity. Qed.
+
+(* (3) the bound [sizes_bounded] is needed: a member of 10^40 + 7 bytes.  The record added by Chmod is the last 40 digits
+   ("00...07"), the replay stores 7; the reference keeps the size.  Archive and twin alike. *)
+Definition tbig : tree := {| t_meta := tmt 1; t_kids := [File (s "f") (tmt 1) [(1, 0, 10 ^ 40 + 7)]] |}.
+Definition sizes (sy : sys) : list (str * N) := map (fun e => (e_path e, e_size e)) (view cc sy).
+Example T20_counter_bound :
+  sizes (twin cc DotSlash tbig) = [(s "/", 0); (s "/f", 10 ^ 40 + 7)] /\
+  sizes (after (twin cc DotSlash tbig) (CChmod (s "/f") 384)) = [(s "/", 0); (s "/f", 7)] /\
+  sizes (after (opened cc (archive_of DotSlash tbig)) (CChmod (s "/f") 384)) = [(s "/", 0); (s "/f", 7)] /\
+  option_map n_size (T02Ns.lookup (fst (spec_chmod (abs (twin cc DotSlash tbig)) (s "/f") 384)) (s "/f")) = Some (10 ^ 40 + 7).
+Proof. vm_compute. repeat split; reflexivity. Qed.
+
+Example T20_counter_bound_not_Good : ~ Good true cc (twin cc DotSlash tbig).
+Proof.
+  intros [[_ Hsz] _]. unfold sizes_ok in Hsz. rewrite Forall_forall in Hsz.
+  assert (Hin : exists r, In r (rows (db (twin cc DotSlash tbig))) /\ pax_get K_usize (r_pax r) = None /\ r_size r = 10 ^ 40 + 7).
+  { eexists. split; [right; left; reflexivity|]. split; reflexivity. }
+  destruct Hin as (r & Hr & Hp & Hs). specialize (Hsz r Hr). unfold size_ok in Hsz. rewrite Hp, Hs in Hsz.
+  apply N.ltb_lt in Hsz. vm_compute in Hsz. discriminate.
+Qed.
